@@ -6,7 +6,7 @@ out=/verif/seeded/$name
 wt=$(mktemp -d /tmp/vseed.XXXXXX)
 git -C /repo worktree add -q --detach "$wt" "${BASE:-HEAD}" || exit 2
 if ! git -C "$wt" apply --check "$out/patch.diff" 2>/dev/null; then
-  for fb in eb5f681 6c019d0 151f69a e019c9f^; do
+  for fb in 8fca275 eb5f681 6c019d0 151f69a e019c9f^; do
     git -C /repo worktree remove --force "$wt"; git -C /repo worktree add -q --detach "$wt" $fb || exit 2
     git -C "$wt" apply --check "$out/patch.diff" 2>/dev/null && break
   done
